@@ -245,6 +245,45 @@ def synthetic_events():
             ev.append({"kind": "hdr", "flat": [[a, _val(b, {})] for a, b in flat.items() if _fits_representable(b)],
                        "header": [[a, _val(hdr[a], {})] for a in hdr.keys() if str(a).startswith("Config")],
                        "_m": {"config_object_edited_in_place": k, "nflat": len(flat)}})
+        # the `nuspacesim run` application with overriding options: the file it writes must carry the configuration that PRODUCED the run
+        # (the TOML file with the command-line overrides applied) and reload to it
+        try:
+            import dask
+            from click.testing import CliRunner
+            from nuspacesim.apps.cli import cli
+            from nuspacesim.config import create_toml, config_from_toml, Simulation as _Sim
+            from nssverif.pipeline import quiet_progress
+            quiet_progress()
+            base_cfg = pipeline.make_config({"mode": "Diffuse", "spectrum": "mono", "log_e": 8.0, "thrown": 500, "set": {"title": "cli base", "detector.name": "CLI"}})
+            toml = os.path.join(d, "cli.toml")
+            create_toml(toml, base_cfg)
+            for k, (args, edit) in enumerate([
+                    (["150", "--monospectrum", "9.5"], lambda c: (setattr(c.simulation, "thrown_events", 150), setattr(c.simulation, "spectrum", _Sim.MonoSpectrum(log_nu_energy=9.5)))),
+                    (["120", "--powerspectrum", "2.5", "7.0", "10.0"], lambda c: (setattr(c.simulation, "thrown_events", 120), setattr(c.simulation, "spectrum", _Sim.PowerSpectrum(index=2.5, lower_bound=7.0, upper_bound=10.0)))),
+                    (["130", "--monocloud", "3.0"], lambda c: (setattr(c.simulation, "thrown_events", 130), setattr(c.simulation, "cloud_model", _Sim.MonoCloud(altitude=3.0))))]):
+                out = os.path.join(d, f"cli{k}.fits")
+                with dask.config.set(scheduler="synchronous"):
+                    res = CliRunner().invoke(cli, ["run", toml, "-o", out] + args)
+                want = config_from_toml(toml)
+                edit(want)
+                meta = {"cli_run": args, "exit_code": res.exit_code, "exception": repr(res.exception)[:200]}
+                if res.exit_code != 0 or not os.path.exists(out):
+                    ev.append({"kind": "recon", "ok": False, "cfg": [], "recon": [], "_m": meta})
+                    continue
+                hdr = _fits.getheader(out, 1)
+                flat = flat_config(want.model_dump())
+                ev.append({"kind": "hdr", "flat": [[a, _val(b, {})] for a, b in flat.items() if _fits_representable(b)],
+                           "header": [[a, _val(hdr[a], {})] for a in hdr.keys() if str(a).startswith("Config")], "_m": dict(meta, nflat=len(flat))})
+                try:
+                    rec = config_from_fits(out)
+                    fc, fr = dict(flat_attrs(want)), dict(flat_attrs(rec))
+                    ang = lambda n: n.split(".")[-1] in ANGLE_FIELDS
+                    ev.append({"kind": "recon", "ok": True, "cfg": [[a, _val(b, {}, ang(a))] for a, b in fc.items() if b is not None],
+                               "recon": [[a, _val(b, {}, ang(a))] for a, b in fr.items() if b is not None], "_m": meta})
+                except Exception as ex:
+                    ev.append({"kind": "recon", "ok": False, "cfg": [], "recon": [], "_m": dict(meta, error=repr(ex)[:300])})
+        except Exception as ex:
+            ev.append({"kind": "recon", "ok": False, "cfg": [], "recon": [], "_m": {"cli_run": "setup failed", "error": repr(ex)[:300]}})
         for name, t in cases:
             path = os.path.join(d, name + ".fits")
             t.write(path, format="fits", overwrite=True)
